@@ -53,8 +53,10 @@ impl Acc {
             e.1 = msg.chars().take(300).collect();
         }
         e.0 += 1;
+        let in_class = e.0;
         self.viol_count += 1;
-        if self.viols.len() < MAX_VIOLS_KEPT {
+        // keep the replay files diverse: at most 4 per class while there is room
+        if self.viols.len() < MAX_VIOLS_KEPT && (in_class <= 4 || self.viols.len() < MAX_VIOLS_KEPT / 2) {
             self.viols.push(Viol { msg, case });
         }
     }
